@@ -9,7 +9,7 @@
 (* Init chooses the input from every byte string up to MaxLen over         *)
 (* Alphabet behind each opener.                                            *)
 (***************************************************************************)
-EXTENDS SqliOps, TLC, Json
+EXTENDS SqliOps, TLC, Json, SequencesExt
 
 CONSTANTS Units,     \* set of byte strings the body is concatenated from (single bytes or lexical fragments)
           MaxLen,    \* maximal number of units in a body
@@ -25,9 +25,10 @@ VARIABLES s,       \* input
           k,       \* index of the current pass in the cascade (1..5), level "check"
           iters,   \* fold iterations of the current pass
           hist,    \* history: lexer steps, or results of the passes run so far
+          rules,   \* history: names of the fold steps / rewrite rules taken so far (coverage)
           out      \* final result
 
-vars == <<s, fl, phase, ls, fs, k, iters, hist, out>>
+vars == <<s, fl, phase, ls, fs, k, iters, hist, rules, out>>
 
 n == Len(s)
 
@@ -41,6 +42,7 @@ Init ==
      \/ Level = "check" /\ fl = 9 /\ ls = LexInit /\ k = 1
                         /\ IF n = 0 THEN phase = "done" /\ fs = FoldInit
                            ELSE phase = "fold" /\ fs = SkipLeading(s, 9, FoldInit)
+  /\ rules = IF Level = "lex" \/ Len(s) = 0 THEN {} ELSE {fs.rule}
 
 \* one scan step of the lexer
 LexStep ==
@@ -52,19 +54,20 @@ LexStep ==
                                       ddx |-> r.ls.ddx, hash |-> r.ls.hash, ntok |-> r.ls.ntok])
              /\ UNCHANGED phase
         ELSE /\ phase' = "done" /\ UNCHANGED hist
-  /\ UNCHANGED <<s, fl, fs, k, iters, out>>
+  /\ UNCHANGED <<s, fl, fs, k, iters, rules, out>>
 
 \* one iteration of the fold loop
 FoldIter ==
   /\ phase = "fold" /\ fs.ret < 0
   /\ fs' = FoldStep(s, fl, fs)
   /\ iters' = iters + 1
+  /\ rules' = rules \cup {fs'.rule}
   /\ UNCHANGED <<s, fl, phase, ls, k, hist, out>>
 
 FoldReturn ==
   /\ phase = "fold" /\ fs.ret >= 0
   /\ phase' = "decide"
-  /\ UNCHANGED <<s, fl, ls, fs, k, iters, hist, out>>
+  /\ UNCHANGED <<s, fl, ls, fs, k, iters, hist, rules, out>>
 
 PassRec(p) == [fl |-> p.fl, fp |-> p.fp, black |-> p.black, white |-> p.white, verdict |-> p.verdict,
                ddx |-> p.ddx, hash |-> p.hash, ntok |-> p.ntok, folds |-> p.folds, scan |-> p.scan,
@@ -90,13 +93,14 @@ Decide ==
      /\ IF Level = "pass" \/ p.verdict
         THEN /\ phase' = "done"
              /\ out' = [k |-> "result", sqli |-> p.verdict, fp |-> IF p.verdict THEN p.fp ELSE <<>>]
-             /\ UNCHANGED <<fl, fs, k, iters>>
+             /\ UNCHANGED <<fl, fs, k, iters, rules>>
         ELSE LET m == NextPass(k, p) IN
              IF m = 6
              THEN /\ phase' = "done" /\ out' = [k |-> "result", sqli |-> FALSE, fp |-> <<>>]
-                  /\ UNCHANGED <<fl, fs, k, iters>>
+                  /\ UNCHANGED <<fl, fs, k, iters, rules>>
              ELSE /\ k' = m /\ fl' = CascadeFlags[m] /\ phase' = "fold" /\ iters' = 0
                   /\ fs' = SkipLeading(s, CascadeFlags[m], FoldInit)        \* fresh state
+                  /\ rules' = rules \cup {fs'.rule}
                   /\ UNCHANGED out
   /\ UNCHANGED <<s, ls>>
 
@@ -159,15 +163,17 @@ Export ==
   (DoExport /\ phase = "done") =>
     CASE Level = "lex" ->
            PrintT(ToJson([in |-> s, flags |-> fl, end |-> ls.pos,
+                          kinds |-> SetToSeq({hist[i].kind : i \in DOMAIN hist}),
                           steps |-> [i \in DOMAIN hist |-> <<hist[i].before, hist[i].after, hist[i].ddx, hist[i].hash, hist[i].ntok>>],
                           toks |-> [i \in DOMAIN hist |-> TokJ(hist[i].tok)]]))
       [] Level = "pass" ->
            LET h == hist[1] IN
            PrintT(ToJson([in |-> s, flags |-> fl, fp |-> h.fp, black |-> h.black, white |-> h.white, verdict |-> h.verdict,
-                          ddx |-> h.ddx, hash |-> h.hash, ntok |-> h.ntok, folds |-> h.folds,
+                          ddx |-> h.ddx, hash |-> h.hash, ntok |-> h.ntok, folds |-> h.folds, rules |-> SetToSeq(rules),
                           toks |-> [i \in DOMAIN h.toks |-> TokJ(h.toks[i])]]))
       [] Level = "check" ->
            PrintT(ToJson([in |-> s, sqli |-> IF n = 0 THEN FALSE ELSE out.sqli, fp |-> IF n = 0 THEN <<>> ELSE out.fp,
+                          rules |-> SetToSeq(rules),
                           passes |-> [i \in DOMAIN hist |-> [fl |-> hist[i].fl, fp |-> hist[i].fp, verdict |-> hist[i].verdict,
                                                              ddx |-> hist[i].ddx, hash |-> hist[i].hash,
                                                              ntok |-> hist[i].ntok, folds |-> hist[i].folds]]]))
